@@ -7,7 +7,7 @@
 tier=${1:-quick}; shift
 cd /verif || exit 2
 seeds="$@"; [ -z "$seeds" ] && seeds=$(ls seeded | grep -E '^C[0-9]+-')
-out=seeded/REGRESSION.txt; tmp=$(mktemp)
+out=${REG_OUT:-seeded/REGRESSION.txt}; tmp=$(mktemp)   # REG_OUT: write the rows elsewhere (parallel runs, merged later)
 for s in $seeds; do
   prop=${s%%-*}; checks=$prop
   [ "$s" = "C10-b" ] && checks="C10 C18"
@@ -51,7 +51,7 @@ for s in $seeds; do
     first=$(echo "$o" | grep '^VIOLATION' | head -2 | sed 's/.*replay=.*replays\///' | tr '\n' ' ')
     line="$line | $c rc=$rc violations=$nv $(( $(date +%s) - t0 ))s $first"
   done
-  if [ $target = /repo ]; then git -C /repo checkout -- .; else git -C /repo worktree remove --force $target; git -C /verif checkout -q -- evidence; fi
+  if [ $target = /repo ]; then git -C /repo checkout -- .; else git -C /repo worktree remove --force $target; [ -n "${REG_OUT:-}" ] || git -C /verif checkout -q -- evidence; fi
   echo "$line" | tee -a $tmp
 done
 # merge with the rows of seeds not re-run this time
